@@ -69,16 +69,16 @@ type Report struct {
 
 // Ctx is handed to Check.Run in each worker.
 type Ctx struct {
-	Prop     string
-	Tier     string
-	Seed     int64
-	Shard    int
-	NShards  int
-	deadline time.Time
-	rep      *Report
-	item     int64
+	Prop      string
+	Tier      string
+	Seed      int64
+	Shard     int
+	NShards   int
+	deadline  time.Time
+	rep       *Report
+	item      int64
 	maxPerSig int
-	perSig   map[string]int
+	perSig    map[string]int
 }
 
 func (c *Ctx) Thorough() bool { return c.Tier == "thorough" }
